@@ -11,14 +11,45 @@ feeding — re-presenting the unconsumed bytes as the manual prescribes; the
 results (code, total consumed, DER of the value) must coincide and every proper
 prefix must give RC_WMORE with consumed <= prefix length.  The one-shot result
 is also compared with the extracted reference decoders, and the extracted
-restartable machines with the C on the shapes they model."""
+restartable machines with the C on the shapes they model.
+Second layer (lib/c05x_util.py, coq/Rt/ResumeX.v): XER documents the library's
+encoder never writes (every character in any valid reference form, comments,
+attributes, prolog, empty-element forms) for one PDU per string type, with the
+expected value computed in Python; extensible SEQUENCEs decoded by OLDER versions
+of the type (unknown additions) in BER / OER / XER; the extracted reader of XER
+text bodies (entref_step) and OER open-type skipper (skip_step, skips_step)
+against the C: first call on every prefix, value under feeding."""
 import sys, os, re
 sys.path.insert(0, os.path.join(os.path.dirname(os.path.abspath(__file__)), "..", "lib"))
 from vlib import *
 from modcorpus import *
 import c05_util as U
+import c05x_util as X
+import ext_layer
 
 EXTRA = os.path.join(HARNESS, "moddrv_c05.inc")
+
+
+def run_mod_par(run, m, lines, name, timeout=1500):
+    """run_mod for long batches of independent commands: the lines are dealt round-robin to up to 8 driver processes
+    that run side by side; the answers come back in the order of the lines (deterministic).  A crash costs the rest of
+    that process's share only."""
+    k = min(8, len(lines) // 40)
+    if k <= 1:
+        return run_mod(run, m, lines, name, timeout=timeout)
+    from concurrent.futures import ThreadPoolExecutor
+    parts = [lines[i::k] for i in range(k)]
+    with ThreadPoolExecutor(k) as ex:
+        res = list(ex.map(lambda part: run_lines(m["exe"], part, timeout=timeout, env=SAN_ENV), parts))
+    out = [None] * len(lines)
+    for i, (part, (rc, o, err)) in enumerate(zip(parts, res)):
+        if rc != 0 or len(o) != len(part):
+            bad = part[len(o)] if len(o) < len(part) else None
+            run.violation("crash:" + name, {"what": "moddrv died (rc=%s): sanitizer report, abort or signal" % rc,
+                                            "module": m["text"], "command_line": bad, "stderr_tail": err[-2500:]})
+            o = o + ["CRASH"] * (len(part) - len(o))
+        out[i::k] = o
+    return out
 
 
 def parse_sweep(o):
@@ -54,6 +85,9 @@ def encodings_of_case(c, m, rng, tier):
     for key in ("xer", "cxer"):
         if c.get(key):
             out.append({"syn": "xer", "label": key, "hex": c[key], "v": None})
+    # XER text the encoder never writes (lib/c05x_util.py): references in every form, comments, attributes, prolog
+    for label, doc in c.get("xdocs", []):
+        out.append({"syn": "xer", "label": label, "hex": doc.hex(), "v": None, "light": True})
     # distinct byte strings only
     seen, res = set(), []
     for e in out:
@@ -70,7 +104,7 @@ def classify(run, m, c, e, line, o, sw):
     syn, n = e["syn"], sw["n"]
     replay = {"module": m["text"], "type": c["tn"], "model_type": c.get("ts"), "value": c.get("vs"), "syntax": syn, "variant": e["label"],
               "command_line": line[:4000], "c": o[:1500]}
-    xer_nl = (syn == "xer" and e["label"] == "xer" and e["hex"].endswith("0a") and sw["rc"] == "OK" and sw["consumed"] == n - 1)
+    xer_nl = (syn == "xer" and e["label"].split(":")[0] == "xer" and e["hex"].endswith("0a") and sw["rc"] == "OK" and sw["consumed"] == n - 1)
     full = sw["rc"] == "OK" and (sw["consumed"] == n or xer_nl) and sw["der"] == c["der"]
     if not full:
         # a valid encoding that the one-shot decoder does not take back: C03/C01 territory; recorded, and the
@@ -84,13 +118,278 @@ def classify(run, m, c, e, line, o, sw):
                                                      % (s, s, n, rc, total, dereq, sw["rc"], sw["consumed"]), split=s))
     # ---- proper prefixes
     for (p, rc, cons) in sw["badprefix"]:
-        if not full:
-            continue
+        if not full and cons <= p:
+            continue          # (a count beyond the window is never acceptable)
         if xer_nl and p == n - 1 and rc == "OK" and cons == n - 1:
             run.known_finding("C05-xer-trailing-newline-prefix", line)
             continue
         run.violation("oracle:prefix(%s)" % syn, dict(replay, what="the proper prefix of %d octets gives %s consumed %d (RC_WMORE with consumed <= %d expected)" % (p, rc, cons, p), prefix=p))
     return full
+
+
+def sweep_items(run, m, items, rng, quick, name):
+    """items: [(case, encoding)] of one module -> sweep + classification + two feeding schedules each"""
+    lines = []
+    for (cc, e) in items:
+        n = len(e["hex"]) // 2
+        # (thorough: the base corpus sweeps up to 3000 points per encoding; here there are ten times as many encodings)
+        maxpts = (400 if n <= 3000 else 80) if quick else (600 if n <= 6000 else 200)
+        lines.append("sweep %s %s %s %d %d" % (cc["tn"], e["syn"], e["hex"], maxpts, rng.below(2**31)))
+    o = run_mod_par(run, m, lines, name, timeout=1500)
+    res, feeds = [], []
+    for (cc, e), line, r in zip(items, lines, o):
+        run.case(line)
+        sw = parse_sweep(r)
+        res.append(sw)
+        if sw is None:
+            if r != "CRASH":
+                run.violation("oracle:sweep", {"what": "unexpected driver output", "module": m["text"], "command_line": line[:3000], "c": r[:500]})
+            continue
+        run.count("enc_%s_%s" % (e["syn"], e["label"]))
+        run.count("splits", sw["pts"])
+        classify(run, m, cc, e, line, r, sw)
+        if sw["n"] <= 3000:
+            for sc in ["1*", ",".join(map(str, U.schedules(rng, sw["n"], 1)[0]))]:
+                feeds.append((cc, e, sw, sc, "feed %s %s %s %s" % (cc["tn"], e["syn"], e["hex"], sc)))
+    o = run_mod_par(run, m, [x[4] for x in feeds], name + "-feed", timeout=1500)
+    for (cc, e, sw, sc, line), r in zip(feeds, o):
+        run.case(line)
+        run.count("sched_" + ("rep" if "*" in sc else "k") + "_feed")
+        got = r.split()
+        if len(got) == 4 and (got[0], int(got[1]), got[2]) == (sw["rc"], sw["consumed"], sw["der"]):
+            continue
+        if r != "CRASH":
+            run.violation("oracle:schedule(%s)" % e["syn"], {"what": "schedule %s: %s; one-shot: %s %d %s" % (sc[:80], r[:200], sw["rc"], sw["consumed"], sw["der"][:80]),
+                                                            "module": m["text"], "type": cc["tn"], "syntax": e["syn"], "variant": e["label"], "command_line": line[:4000]})
+    return res
+
+
+def shifted(entries, start):
+    """model prefix entries (M3,O9,..) moved by `start` octets"""
+    return ["%s%d" % (x[0], int(x[1:]) + start) for x in entries]
+
+
+def ext_part(run, model, xmods, rng, tier):
+    """extensible SEQUENCEs read by an older version of the type (unknown trailing additions): BER variants, OER, XER of the
+    sender's value, decoded by the reader in every 2-chunk split / prefix / schedules; then ResumeX.skips_step against the
+    first call of SEQUENCE_decode_oer on every prefix (readers that know no addition: phase 4 sees all of them)"""
+    quick = tier == "quick"
+    cases = X.ext_cases(xmods, rng, tier)
+    lines = []
+    for c in cases:
+        lines += ["xder %s %s" % (c["x"]["ety"], c["vs"]), "xoer %s %s" % (c["x"]["ety"], c["vs"])]
+    out = ext_layer.model_lines(model, lines, "c05-enc")
+    for i, c in enumerate(cases):
+        c["der"], c["oer"] = out[2 * i], out[2 * i + 1]
+    cases = [c for c in cases if c["der"] != "NONE" and c["oer"] != "NONE"]
+    lines, slots = [], []
+    for c in cases:
+        # (a component-less SEQUENCE { ... } is generated non-extensible: finding C01/C02/C03-ext-empty-sequence-not-extensible)
+        c["rd"] = [{"tn": rn, "x": c["m"]["x"][rn]} for rn in c["readers"] if not ext_layer.degenerate(c["m"]["x"][rn])]
+        for rd in c["rd"]:
+            lines.append("xtruncv %d %s %s" % (rd["x"]["nadd"], c["x"]["ety"], c["vs"]))
+            slots.append((rd, "tvs"))
+    for (rd, k), o in zip(slots, ext_layer.model_lines(model, lines, "c05-trunc")):
+        rd[k] = o
+    lines, slots = [], []
+    for c in cases:
+        for rd in c["rd"]:
+            e2 = rd["x"]["ety"]
+            for k, l in (("xder", "xder %s %s" % (e2, rd["tvs"])), ("oer1", "xoerdec 1 %s %s" % (e2, c["oer"]))):
+                lines.append(l)
+                slots.append((rd, k))
+            if rd["x"]["nadd"] == 0:
+                lines.append("xoer %s %s" % (e2, rd["tvs"]))
+                slots.append((rd, "oer_root"))
+    for (rd, k), o in zip(slots, ext_layer.model_lines(model, lines, "c05-read")):
+        rd[k] = o
+    bym = {}
+    for c in cases:
+        bym.setdefault(c["m"]["name"], []).append(c)
+    for m in xmods:
+        cs = bym.get(m["name"], [])
+        if not cs or not m.get("exe"):
+            continue
+        lines = []
+        for c in cs:
+            lines += ["xcode %s der %s xer" % (c["tn"], c["der"]), "xcode %s der %s cxer" % (c["tn"], c["der"])]
+        o = run_mod(run, m, lines, "C05-ext-xer")
+        items, ties = [], []
+        for i, c in enumerate(cs):
+            run.count("ext_" + c["cat"].split(":")[0])
+            xer = [bytes.fromhex(r.split()[1]) if r.startswith("OK ") else None for r in o[2 * i:2 * i + 2]]
+            tree = X.ext_tree(c["x"])
+            try:
+                bers = U.ber_variants(tree, bytes.fromhex(c["der"]), rng, nrand=1 if quick else 2)
+            except (ValueError, AssertionError, IndexError):
+                bers = [("der", bytes.fromhex(c["der"]), None)]
+                run.count("ext_ber_variants_unavailable")
+            readers = c["rd"] + [{"tn": c["tn"], "x": c["x"], "tvs": c["vs"], "xder": c["der"], "self": True}]
+            for rd in readers:
+                if rd["xder"] == "NONE":
+                    continue
+                cc = {"tn": rd["tn"], "der": rd["xder"], "ts": rd["x"]["ety"], "vs": rd["tvs"]}
+                kind = "self" if rd.get("self") else "old"
+                run.count("ext_reader_" + kind)
+                seen = set()
+                for name, bs, v in bers:
+                    if bs in seen or (rd.get("self") and name not in ("der", "indef")):
+                        continue
+                    seen.add(bs)
+                    items.append((cc, {"syn": "ber", "label": "ber:%s:%s" % (kind, name), "hex": bs.hex(), "v": v}))
+                if not rd.get("self") and rd["oer1"] != "OK %d %s" % (len(c["oer"]) // 2, rd["tvs"]) and "t" not in rd["x"]["ety"]:
+                    run.violation("model:Ext.ext_oer_dec", {"what": "the standard reading of the extensibility model does not return the known part of the value: %s" % rd["oer1"][:300],
+                                                            "model_type": rd["x"]["ety"], "value": rd["tvs"][:2000], "oer": c["oer"][:3000]}, no_input=True)
+                items.append((cc, {"syn": "oer", "label": "oer:" + kind, "hex": c["oer"], "v": None}))
+                for lab, doc in zip(("xer", "cxer"), xer):
+                    if doc is None:
+                        continue
+                    a, b = ("<%s>" % c["tn"]).encode(), ("</%s>" % c["tn"]).encode()
+                    if not doc.startswith(a) or doc.rfind(b) < 0:
+                        continue
+                    k = doc.rfind(b)
+                    doc2 = ("<%s>" % rd["tn"]).encode() + doc[len(a):k] + ("</%s>" % rd["tn"]).encode() + doc[k + len(b):]
+                    items.append((cc, {"syn": "xer", "label": "%s:%s" % (lab, kind), "hex": doc2.hex(), "v": None}))
+                # phase 4 against the extracted loop
+                if rd.get("oer_root") and rd["oer_root"] != "NONE" and len(c["oer"]) <= 800:
+                    oer = bytes.fromhex(c["oer"])
+                    p0 = len(rd["oer_root"]) // 2
+                    if p0 + 2 <= len(oer) and oer[p0] < 128 and oer[0] & 0x80:
+                        ln, unused = oer[p0], oer[p0 + 1] & 7
+                        bits = "".join(format(b, "08b") for b in oer[p0 + 2:p0 + 1 + ln])
+                        bits = bits[:len(bits) - unused] if unused else bits
+                        ties.append((cc, c["oer"], p0 + 1 + ln, bits))
+        sweep_items(run, m, items, rng, quick, "C05-ext-sweep")
+        if ties:
+            co = run_mod(run, m, ["prefixes %s oer %s" % (cc["tn"], h) for (cc, h, st, bits) in ties], "C05-ext-prefixes")
+            ml = ["skipspfx 1 %s %s" % (bits or "0", h[2 * st:] or "-") for (cc, h, st, bits) in ties]
+            rcm, mo, me = run_lines(model, ml, timeout=600)
+            if rcm != 0 or len(mo) != len(ml):
+                raise RuntimeError("model driver failed (skipspfx): %s %s" % (rcm, me))
+            for i, ((cc, h, st, bits), cr) in enumerate(zip(ties, co)):
+                run.case(ml[i])
+                run.count("model_skipspfx")
+                got = cr.split(",")[st:]
+                m1 = shifted(mo[i].split(","), st)
+                if got == m1:
+                    continue
+                bad = [j for j in range(min(len(got), len(m1))) if got[j] != m1[j]][:1]
+                run.violation("correspondence:ResumeX.skips_step", {"what": "the first call of SEQUENCE_decode_oer on the prefixes that reach into the unknown additions (from octet %d on) and the extracted phase-4 loop disagree, first at prefix %s: C %s, model %s"
+                                                                    % (st, (st + bad[0]) if bad else "?", ",".join(got)[:300], ",".join(m1)[:300]),
+                                                                    "module": m["text"], "type": cc["tn"], "command_line": ml[i][:3000], "c_command": "prefixes %s oer %s" % (cc["tn"], h[:3000])},
+                              no_input=not any(x.startswith(("X", "O")) for x in got[:-1]))
+
+
+OPEN_TYPES = ["00", "0141", "05aabbccddee", "7f" + "11" * 127, "8180" + "22" * 128, "81ff" + "33" * 255, "820100" + "44" * 256, "820003aabbcc", "8400000002beef",
+              "80", "8100", "8105aabbccddee", "83000000", "89000000000000000001aa", "8901000000000000000000", "887fffffffffffffffaa", "88ffffffffffffffff", "8a00000000000000000001aa",
+              "ff", "85", "8200"]
+
+
+def skip_tie(run, model, m, rng):
+    """oer_open_type_skip itself against ResumeX.skip_step: every prefix, 1- and 2-octet feeding, a random schedule"""
+    hs = OPEN_TYPES + ["%s%s" % (bytes([k]).hex(), rng.bytes(k).hex()) for k in (rng.range(1, 100), rng.range(1, 127))]
+    hs += [h + "a5a5" for h in hs[:9]]          # something follows the open type
+    cl, ml = [], []
+    for h in hs:
+        n = len(h) // 2
+        scs = ["1*", "2*", ",".join(map(str, U.schedules(rng, n, 1)[0]))]
+        cl += ["oskippfx " + h] + ["oskip %s %s" % (h, sc) for sc in scs]
+        ml += ["skipspfx 1 1 " + h] + ["skipfeed 1 %s %s" % (h, sc) for sc in scs]
+    co = run_mod(run, m, cl, "C05-oskip")
+    rcm, mo, me = run_lines(model, ml, timeout=600)
+    if rcm != 0 or len(mo) != len(ml):
+        raise RuntimeError("model driver failed (skipfeed): %s %s" % (rcm, me))
+    for i, h in enumerate(hs):
+        c4, m1 = co[4 * i:4 * i + 4], mo[4 * i:4 * i + 4]
+        run.case("oskip " + h)
+        run.count("model_skipfeed", 4)
+        if c4 == m1:
+            continue
+        # a window that answers RC_OK with a count beyond it is a failing input of the prefix clause in itself
+        run.violation("correspondence:ResumeX.skip_step", {"what": "oer_open_type_skip and the extracted step disagree on the open type %s (every prefix; 1*, 2*, a schedule): C %s, model %s"
+                                                           % (h[:80], " | ".join(c4)[:400], " | ".join(m1)[:400]),
+                                                           "command_line": ml[4 * i][:3000], "c_command": cl[4 * i][:3000]}, no_input=not any("X" in x or "OVER" in x for x in c4))
+
+
+def entref_tie(run, model, sm, scases, rng, quick):
+    """the text readers of MS5 against ResumeX.entref_step: for documents <T>body</T> (no comment inside) the first call on
+    every prefix (consumed count), the value under 1-octet feeding and a schedule; plus text only the library accepts
+    (a bare '&'): the model says what it stands for"""
+    docs = []
+    for c in scases:
+        if c["kind"] not in ("utf8", "ascii", "bmp", "ucs4", "time"):
+            continue
+        for label, d in c["xdocs"]:
+            if label.split(":")[1] in X.MODES and d.startswith(("<%s>" % c["tn"]).encode()) and len(d) <= 300:
+                docs.append((c, d, False))
+    rng.shuffle(docs)
+    docs = docs[:150 if quick else 1500]
+    for tn, body, d in X.lenient_docs():
+        docs.append(({"tn": tn, "kind": "utf8", "der": None}, d, True))
+    cl, ml = [], []
+    for (c, d, len_) in docs:
+        tn = c["tn"]
+        body = d[len(tn) + 2:len(d) - len(tn) - 3]
+        sc = ",".join(map(str, U.schedules(rng, len(d), 1)[0]))
+        cl += ["prefixes %s xer %s" % (tn, d.hex()), "feed %s xer %s 1*" % (tn, d.hex()), "feed %s xer %s %s" % (tn, d.hex(), sc), "sweep %s xer %s 400 1" % (tn, d.hex())]
+        ml += ["entpfx %s3c" % body.hex(), "entfeed %s3c 1*" % body.hex()]
+    co = run_mod(run, sm, cl, "C05-entref")
+    rcm, mo, me = run_lines(model, ml, timeout=600)
+    if rcm != 0 or len(mo) != len(ml):
+        raise RuntimeError("model driver failed (entfeed): %s %s" % (rcm, me))
+    for i, (c, d, len_) in enumerate(docs):
+        tn = c["tn"]
+        op = len(tn) + 2
+        nb = len(d) - 2 * op - 1
+        cp, cf1, cf2, csw = co[4 * i:4 * i + 4]
+        mp, mf = mo[2 * i].split(","), mo[2 * i + 1].split()
+        run.case(ml[2 * i])
+        run.count("model_entpfx")
+        run.count("entref_lenient" if len_ else "entref_docs")
+        rp = {"type": tn, "document": d.decode("utf-8", "replace"), "command_line": ml[2 * i], "c_command": cl[4 * i]}
+        got = cp.split(",")
+        # windows that end inside the text: RC_WMORE and the model's count; with the '<' of the closing tag: all of the text
+        want = ["M%d" % (op + int(x[1:])) for x in mp[:nb + 1]] + ["M%d" % (op + int(mp[nb + 1][1:]))]
+        if mf[0] != "OK" or mp[nb + 1][0] != "O":
+            run.violation("model:ResumeX.entref_step", dict(rp, what="the extracted reader does not accept the text: %s" % mo[2 * i + 1][:200]), no_input=True)
+            continue
+        if got[op:op + nb + 2] != want:
+            bad = [j for j in range(nb + 2) if got[op + j:op + j + 1] != want[j:j + 1]][:1]
+            run.violation("correspondence:ResumeX.entref_step", dict(rp, what="first call on the prefixes that end inside the text: C %s, model %s (first difference at prefix %d)"
+                                                                     % (",".join(got[op:op + nb + 2])[:400], ",".join(want)[:400], op + (bad[0] if bad else 0))), no_input=True)
+        # the value: OK, all consumed, the string the model reads
+        text = bytes.fromhex(mf[2]) if mf[2] != "-" else b""
+        if c["kind"] in ("bmp", "ucs4"):
+            try:
+                text = text.decode("utf-8").encode("utf-16-be" if c["kind"] == "bmp" else "utf-32-be")
+            except UnicodeError:
+                continue
+        der = X.tlv(X.UTAG[tn], text).hex()
+        if c["der"] is not None and der != c["der"]:
+            run.violation("model:ResumeX.entref_step", dict(rp, what="the extracted reader reads another string than the one the document was written for: %s, expected %s" % (der, c["der"])), no_input=True)
+        for r in (cf1, cf2):
+            f = r.split()
+            if len(f) != 4 or (f[0], f[1], f[2]) != ("OK", str(len(d)), der):
+                run.violation("correspondence:ResumeX.entref_step", dict(rp, what="fed in chunks the C answers %s; the extracted reader: OK %d %s" % (r[:200], len(d), der)), no_input=not len_)
+        sw = parse_sweep(csw)
+        if len_ and sw is not None:
+            # chunked = one-shot on the text only the library accepts (not a valid encoding: no value / prefix oracle)
+            run.count("splits", sw["pts"])
+            for (s_, rc, total, dereq) in sw["badsplit"]:
+                run.violation("oracle:split(xer)", dict(rp, what="fed as [0,%d)+[%d,%d): %s consumed %d value-equal=%s; one-shot: %s consumed %d" % (s_, s_, sw["n"], rc, total, dereq, sw["rc"], sw["consumed"])))
+
+
+def nul_probe(run, sm):
+    """a reference to the code point 0 in a text body ("&#0;", "&#;", "&#x;"): the library calls abort() (assert(val > 0));
+    the extracted reader has XAbort there.  Each document goes to a process of its own."""
+    for body in (b"a&#0;b", b"&#;", b"&#x;", b"&#x000;"):
+        line = "feed SU xer %s 1*" % (b"<SU>" + body + b"</SU>").hex()
+        rc, out, err = run_lines(sm["exe"], [line], env=SAN_ENV)
+        run.case(line)
+        if rc != 0 and "val > 0" in err:
+            run.known_finding("C05-xer-entref-nul-abort", line)
+        elif rc != 0 or len(out) != 1:
+            run.violation("crash:C05-nul", {"what": "moddrv died (rc=%s)" % rc, "command_line": line, "stderr_tail": err[-1500:]})
 
 
 def main(tier):
@@ -106,13 +405,16 @@ def main(tier):
     try:
         nm, nt, nv = (7, 5, 4) if quick else (28, 6, 8)
         mods, cases = build_corpus(run, rng, nm, nt, nv, tier, tag="c05", moddrv_extra=EXTRA)
-        cm, wm = U.chain_module(), U.wide_module()
-        build_modules([cm, wm], tag="c05x", moddrv_extra=EXTRA)
+        cm, wm, sm = U.chain_module(), U.wide_module(), X.string_module()
+        # the second layer draws from streams of its own: the corpus above stays what it was
+        rng_s, rng_b = Rng(run.seed * 1000003 + 51), Rng(run.seed * 1000003 + 52)
+        xmods = X.ext_modules(Rng(run.seed * 1000003 + 53), tier)
+        build_modules([cm, wm, sm] + xmods, tag="c05x", moddrv_extra=EXTRA)
         model = model_build()
     except BuildError as e:
         run.violation("build", {"what": str(e)[-2500:]}, no_input=True)
         return run.finish("proof", (nthm, ndis))
-    for m in mods + [cm, wm]:
+    for m in mods + [cm, wm, sm] + xmods:
         if not m.get("exe"):
             run.violation("build:module", {"what": "a valid module was rejected or its code does not compile", "module": m["text"],
                                            "asn1c_out": m.get("asn1c_out", "")[-1200:], "build_log": m.get("build_log", "")[-1200:]})
@@ -153,11 +455,22 @@ def main(tier):
         o = run_mod(run, wm, ["xcode %s der %s oer" % (c["tn"], c["der"]) for c in wcases], "C05-woer")
         for c, r in zip(wcases, o):
             c["oer"] = r.split()[1] if r.startswith("OK ") else None
+    # ---- cases of the string module: hand-written values (DER computed in Python) and XER documents
+    scases = []
+    if sm.get("exe"):
+        scases = X.string_cases(rng_s, tier, run.seed)
+        for c in scases:
+            c["mod"], c["wide"] = sm, True
+            run.count("xdoc_values_" + c["kind"])
+        o = run_mod(run, sm, ["xcode %s der %s oer" % (c["tn"], c["der"]) for c in scases], "C05-soer")
+        for c, r in zip(scases, o):
+            c["oer"] = r.split()[1] if r.startswith("OK ") else None
+    wcases = wcases + scases
     allcases = [c for c in cases if len(c["der"]) <= (6000 if quick else 140000)] + ccases + wcases
     run.count("cases_dropped_long", len(cases) - len([c for c in cases if len(c["der"]) <= (6000 if quick else 140000)]))
     bm = by_module(allcases)
     nenc = 0
-    for m in mods + [cm, wm]:
+    for m in mods + [cm, wm, sm]:
         if not m.get("exe"):
             continue
         cs = bm.get(m["name"], [])
@@ -182,13 +495,17 @@ def main(tier):
                 scheds = ["1*", "2*", "3*"] + [",".join(map(str, sz)) for sz in U.schedules(rng, n, 2 if quick else 6)]
                 if n > 3000:
                     scheds = scheds[2:]
+                if e.get("light"):
+                    scheds = ["1*", scheds[3]]
                 for sc in scheds:
                     feeds.append((c, e, sc, "feed %s %s %s %s" % (c["tn"], e["syn"], e["hex"], sc)))
+                    if e.get("light"):
+                        continue
                     if "*" not in sc:
                         feeds.append((c, e, sc, "chunk %s %s %s %s" % (c["tn"], e["syn"], e["hex"], sc)))
                     elif n <= 250 and sc == "1*":
                         feeds.append((c, e, sc, "chunk %s %s %s %s" % (c["tn"], e["syn"], e["hex"], ",".join(["1"] * n))))
-        o = run_mod(run, m, [x[2] for x in sweeps], "C05-sweep", timeout=1500)
+        o = run_mod_par(run, m, [x[2] for x in sweeps], "C05-sweep", timeout=1500)
         oneshot = {}
         for (c, e, line), r in zip(sweeps, o):
             run.case(line)
@@ -211,7 +528,7 @@ def main(tier):
             if len(run.cov["samples"]) < 10 and nenc % 97 == 1:
                 run.sample({"cmd": line[:160], "c": r[:160]})
         # k-chunk schedules, n-byte feeding: both implementations of the discipline
-        o = run_mod(run, m, [x[3] for x in feeds], "C05-feed", timeout=1500)
+        o = run_mod_par(run, m, [x[3] for x in feeds], "C05-feed", timeout=1500)
         for (c, e, sc, line), r in zip(feeds, o):
             run.case(line)
             run.count("sched_" + ("rep" if "*" in sc else "k") + "_" + line.split()[0])
@@ -333,6 +650,18 @@ def main(tier):
                     run.violation("correspondence:Rt.%s" % l.split()[0], {"what": "one-shot C decoder and the reference decoder of the model disagree",
                                                                         "model_type": c["ts"], "value": c["vs"], "command_line": l[:3000], "model": r[:300], "c": "%s %d %s" % (sw["rc"], sw["consumed"], sw["der"][:200])},
                                   no_input=True)
+    # ---- second layer: older readers of extensible types; the extracted steps of Rt/ResumeX.v against the C
+    import time as _time
+    t_layer = _time.time()
+    try:
+        ext_part(run, model, xmods, rng_b, tier)
+        if sm.get("exe"):
+            skip_tie(run, model, sm, rng_b)
+            entref_tie(run, model, sm, scases, rng_s, quick)
+            nul_probe(run, sm)
+    except (RuntimeError, BuildError) as e:
+        run.violation("build", {"what": str(e)[-2500:]}, no_input=True)
+    run.count("second_layer_ext_and_ties_wall_s", int(_time.time() - t_layer))
     if os.environ.get("C05_DEBUG"):
         for v in run.violations:
             log("DBG %s | %s | %s %s | %s | %s" % (v["kind"], v.get("what", "")[:300], v.get("type"), v.get("variant"), v.get("command_line", "")[:200], v.get("c", "")[:300]))
@@ -340,14 +669,15 @@ def main(tier):
           "axioms under Print Assumptions: " + (", ".join(sorted(axioms)) or "none (Closed under the global context)"),
           "extraction: ExtrOcamlBasic only; OCaml 4.13.1",
           "harness/moddrv_c05.inc (feeding discipline, sweep of split points) and harness/moddrv.c `chunk` (second implementation of the discipline); lib/c05_util.py (BER variants derived along the type, classifier predicates)",
-          "lib/modgen.py (generator, independent X.680 tagging); XER text and the wide module's values come from the C itself (xer_encode, asn_random_fill)",
+          "lib/modgen.py (generator, independent X.680 tagging); XER text of the generated corpus and the wide module's values come from the C itself (xer_encode, asn_random_fill)",
+          "lib/c05x_util.py (values, DER and XER documents of the string module MS5, written independently of the C); lib/extgen.py, lib/ext_layer.py model batches and coq/Rt/Ext.v (expected value of an older reader of an extensible type)",
           "gcc + ASan/UBSan; every window is an exact-size heap block"]
     return run.finish("proof", (nthm, ndis), trusted_base=tb,
                       checker_cmd="make -C /verif all && coqc -Q coq A1 coq/Props/Properties_C05.v",
                       extra_cov={"theorems": names, "modules": len(mods) + 2, "encodings": nenc,
                                  "rule": "one case = one driver command: a sweep (one encoding: one-shot + every/sampled 2-chunk split + every such proper prefix), one chunk schedule through one implementation of the feeding discipline, or one reference-decoder line; distinct command lines",
                                  "traces_validated_against_impl": run.cov["evaluations"]},
-                      assumptions=["machines proved coherent: primitive BER decoder, tag-chain check (any number of tags); SEQUENCE/SET OF/CHOICE bodies, constructed-string stack, OER and XER decoders are covered by the tie only (partial)",
+                      assumptions=["machines proved coherent: primitive BER decoder, tag-chain check (any number of tags), XER text-body reader (entity references), OER open-type skipper and its phase-4 loop; SEQUENCE/SET OF/CHOICE bodies, constructed-string stack, the XML tokenizer and the other OER and XER decoders are covered by the tie only (partial)",
                                    "split points are exhaustive for encodings up to the tier's bound (quick 400, thorough 3000 octets), sampled beyond"])
 
 
